@@ -54,7 +54,7 @@ META['C03'] = dict(
   note=_ENG_NOTE)
 META['C04'] = dict(
   text=("Kernel-checked refinement (applyTarget_refines): for every state and every valid target the position (stack, index) after applyTarget is what the documented move table specMove gives, and a failing move leaves the position unchanged; "
-        "rewind by induction over any depth; idx reset on descent/ascent; lateral moves keep the stack; '<' at index 0 fails without effect. MOVE, INCMP and CATCH all go through applyTarget in the model. Tie: engine suite compares path and index after every request."),
+        "rewind by induction over any depth; idx reset on descent/ascent; lateral moves keep the stack; '<' at index 0 fails without effect. MOVE, INCMP and CATCH all go through applyTarget in the model. Engine.Reset (reset-on-empty-input) from ANY depth, the entry node included, leaves the empty path, the base cache scope and MOVE <root> pending (reset_on_empty_input_restarts, Vise/Props/C04Reset.lean). Tie: engine suite compares path and index after every request."),
   note=_ENG_NOTE + "specMove is transcribed by hand from doc/texinfo/navigation.texi. The two explicit panics of State.Down are excluded by hypothesis (C08).")
 META['C05'] = dict(
   text=("Kernel-checked: LOAD of a visible symbol is a no-op (no call); otherwise the cache after LOAD is Add(sym,result,uint16(size)) of the cache before and the external call touches neither cache, page nor position (refresh_keeps, "
